@@ -1,8 +1,10 @@
 SPECIFICATION Spec
+CONSTANT Deviations = {}
 CONSTANT Family = "subst"
 CONSTANT W1 = 2
-CONSTANT W2 = 2
+CONSTANT W2 = 1
 CONSTANT W3 = 1
+CONSTANT FilterLevel = 2
 CONSTANT BodyLevel = 2
 INVARIANT Refines
 INVARIANT ErrorsExact
